@@ -80,11 +80,39 @@ struct Case {
     stepped: Rendered,
     plain: Rendered,
     mode: Mode,
+    /// the program reads console input (INT 21h AH=1 / AH=0Ah): prompts and program share standard input
+    reads: bool,
 }
 
 fn make_case(rng: &mut Rng, mode: Mode) -> Case {
     let o = SOpts { prints: true, int3: matches!(mode, Mode::Int3 | Mode::FlagInt3), macros: true, procs: true, out_chars: true, max_blocks: 2 + rng.below(6) };
-    let p = structured_program(rng, &o);
+    let mut p = structured_program(rng, &o);
+    // -i mode only (one prompt per instruction: the script can be interleaved exactly): the program reads lines from
+    // the console and keeps what it read in memory (stack / buffer)
+    let mut reads = false;
+    if mode == Mode::Flag && rng.chance(1, 2) {
+        reads = true;
+        let si = p.items.iter().position(|i| matches!(i, Item::Label(l) if l == "start")).unwrap();
+        for k in 0..1 + rng.below(3) {
+            let at = si + 1 + rng.below(p.items.len() - si);
+            let ins = |x: Ins| Item::Ins(x);
+            let block: Vec<Item> = if rng.chance(1, 2) {
+                vec![ins(Ins::Mov(Loc::R8(R8::AH), Src::Imm(1))), ins(Ins::Int(0x21)), ins(Ins::Push(Loc::R16(R16::AX)))]
+            } else {
+                let buf = 0x3000 + 64 * k as u16;
+                vec![
+                    ins(Ins::Mov(Loc::R16(R16::BX), Src::Imm(buf))),
+                    ins(Ins::Mov(Loc::Mem(W::B, Mem { seg: None, form: MemForm::Ind(R16::BX) }), Src::Imm(30))),
+                    ins(Ins::Mov(Loc::R16(R16::DX), Src::Imm(buf))),
+                    ins(Ins::Mov(Loc::R8(R8::AH), Src::Imm(10))),
+                    ins(Ins::Int(0x21)),
+                ]
+            };
+            for (j, it) in block.into_iter().enumerate() {
+                p.items.insert(at + j, it);
+            }
+        }
+    }
     let mut stepped = p.clone();
     let mut plain = p.clone();
     replace_int3(&mut plain.items);
@@ -119,7 +147,7 @@ fn make_case(rng: &mut Rng, mode: Mode) -> Case {
     let spell_seed = rng.fork(77);
     let stepped_r = stepped.render(&mut Spell { rng: Some(spell_seed.clone()), upper_prob: 0, radix_mix: false, ws_mix: false, syn_mix: false }, &lay);
     let plain_r = plain.render(&mut Spell { rng: Some(spell_seed), upper_prob: 0, radix_mix: false, ws_mix: false, syn_mix: false }, &lay);
-    Case { stepped: stepped_r, plain: plain_r, mode }
+    Case { stepped: stepped_r, plain: plain_r, mode, reads }
 }
 
 fn final_state(p: &Parsed) -> Option<(Regs, Vec<u8>)> {
@@ -184,7 +212,9 @@ pub fn run_case(rep: &Report, c: &Case, rng: &mut Rng, core: Option<usize>) {
         rep.fail(Failure { sig: sig.clone(), what, witness: wit(&detail, stdin, out), core_item: core.map(|k| format!("{}|{}|{}", k, sig, detail)) });
     };
     // ---- plain run of the trigger-free twin
-    let base = run_cli(c.plain.text.as_bytes(), &CliOpts { stdin: b"", ..Default::default() });
+    let console: Vec<String> = (0..300).map(|k| format!("{}line {} of input", (b'A' + (k % 26) as u8) as char, k)).collect();
+    let console_all: Vec<u8> = if c.reads { console.iter().flat_map(|l| format!("{}\n", l).into_bytes()).collect() } else { Vec::new() };
+    let base = run_cli(c.plain.text.as_bytes(), &CliOpts { stdin: &console_all, ..Default::default() });
     let bp = parse_records(&base.stdout);
     if base.timed_out {
         rep.inconclusive("cli watchdog");
@@ -201,7 +231,30 @@ pub fn run_case(rep: &Report, c: &Case, rng: &mut Rng, core: Option<usize>) {
     // ---- all-next run of the stepped program
     let nexts: Vec<u8> = {
         let mut v = Vec::new();
-        for _ in 0..(bp.recs.len() * 2 + 50) {
+        if c.reads {
+            // exact interleaving: one answer per program instruction, and behind the answer for a console read the
+            // line that read takes (the plain run's trace tells which instructions execute, in which order)
+            let n_prog = c.stepped.pos.len();
+            let mut j = 0;
+            for r in bp.recs.iter() {
+                if r.idx >= n_prog {
+                    continue;
+                }
+                v.extend_from_slice(rng.pick(&["n\n", "next\n", "N\n", "  next  \n"]).as_bytes());
+                let is_read = r.line.starts_with("int ") && r.line[4..].trim().parse::<u32>().ok() == Some(0x21) && matches!(r.regs[AX] >> 8, 1 | 10);
+                if is_read {
+                    v.extend_from_slice(console[j.min(console.len() - 1)].as_bytes());
+                    v.push(b'\n');
+                    j += 1;
+                }
+            }
+            rep.count("console reads interleaved with prompt answers", j as u64);
+            if j >= console.len() {
+                rep.inconclusive("more console reads than prepared lines");
+                return;
+            }
+        }
+        for _ in 0..(if c.reads { 50 } else { bp.recs.len() * 2 + 50 }) {
             v.extend_from_slice(rng.pick(&["n\n", "next\n", "N\n", "  next  \n"]).as_bytes());
         }
         v
@@ -329,7 +382,9 @@ pub fn run_case(rep: &Report, c: &Case, rng: &mut Rng, core: Option<usize>) {
         }
     }
     rep.distinct_str(&format!("{:?}|prompts{}|recs{}", c.mode, prompt_pos.len().min(40), fp.recs.len().min(60)));
-    if prompt_pos.is_empty() {
+    if prompt_pos.is_empty() || c.reads {
+        // (programs that read console input take part in the transparency comparison only: a scripted history
+        // would have to place the program's input lines, which depends on where the history stops)
         return;
     }
     // ---- scripted histories against the model derived from the all-next run
